@@ -89,6 +89,8 @@ def gen_recipe(t, kinds=None, files=None):
         r["chunks"] = [t.choice([b"", b"a", b"chunk-%d" % i, bytes(range(256)), b"x" * 1000]) for i in range(n)]
         r["content_type"] = t.choice(["application/octet-stream", "text/plain; charset=utf-8"])
         r["raise_at"] = None
+        # the producer is an iterator OBJECT (a queue wrapper, a reader), not a generator: no close()/aclose(), no throw()
+        r["iter_object"] = t.draw(4) == 0
     elif kind == "sse":
         n = t.draw(4)
         r["events"] = [t.choice([{"data": "d%d" % i}, {"event": "e", "data": "x\ny"}, {"id": "7", "retry": 10}, {}]) for i in range(n)]
@@ -169,7 +171,30 @@ def build(r, iface, fs=None, hooks=None):
                     yield c
                 if r["raise_at"] == len(r["chunks"]):
                     raise boom
-        resp = M.StreamResponse(gen(), r["status"], headers, content_type=r["content_type"])
+        it = gen()
+        if r.get("iter_object"):
+            if iface == "wsgi":
+                class Plain:
+                    def __init__(self, g):
+                        self._n = g.__next__
+
+                    def __iter__(self):
+                        return self
+
+                    def __next__(self):
+                        return self._n()
+            else:
+                class Plain:
+                    def __init__(self, g):
+                        self._n = g.__anext__
+
+                    def __aiter__(self):
+                        return self
+
+                    def __anext__(self):
+                        return self._n()
+            it = Plain(it)
+        resp = M.StreamResponse(it, r["status"], headers, content_type=r["content_type"])
     elif k == "sse":
         boom = hooks.get("boom") or ProducerError("producer")
         sleep = hooks.get("sleep")
